@@ -347,6 +347,36 @@ example : validateModel exUtf8 = .ok ∧ Covered exUtf8 := by
     rcases hb with rfl | rfl <;> simp [USIZE]
   · intro n hn; simp [exUtf8] at hn
 
+/-- **C09 for Struct arrays, partial: `offset = 0` and every field nullable.**  (With a non-zero
+offset the property is false — `validate_accepts_malformed_struct_offset`; non-nullable fields
+go through `NullBuffer::contains`, not proved here.) -/
+theorem validate_sound_struct_offset0_partial {d : ArrayData} {fields : Fields}
+    (h : validateData d = .ok) (hi : RustInv d) (ht : d.type = .struct fields) (ho : d.offset = 0)
+    (hnull : ∀ f, f ∈ fields.toList → f.2.2 = true) : LocalWF d := by
+  obtain ⟨hh, hn⟩ := validate_head_of_data h
+  obtain ⟨hv, _⟩ := validateValues_of_data h
+  obtain ⟨hlen, hsc⟩ := validate_struct_parts hv ht
+  unfold LocalWF
+  refine ⟨nullsOk_of_validate hh hn hi, ?_⟩
+  obtain ⟨_, _, hbl, _, _⟩ := validateHead_ok hh
+  rw [ht] at hbl ⊢
+  simp only [layout, List.length_nil, List.length_eq_zero_iff] at hbl
+  simp only
+  refine ⟨hbl, ?_, ?_⟩
+  · rw [ho, Nat.zero_add]; exact structChildren_ok _ _ hlen hsc
+  · clear hsc
+    generalize fields.toList = fs at hlen hnull
+    generalize d.children = cs at hlen
+    induction fs generalizing cs with
+    | nil => cases cs <;> simp_all [fieldsMatch]
+    | cons f fs ih =>
+      rcases cs with _ | ⟨c, cs⟩
+      · simp at hlen
+      · simp only [fieldsMatch, Bool.and_eq_true]
+        refine ⟨by simp [hnull f (by simp)], ih (fun g hg => hnull g (List.mem_cons_of_mem _ hg)) cs (by simpa using hlen)⟩
+
+example : validateData ⟨.struct (.cons 0 (.prim 4) true .nil), 3, 0, none, [], [i32zeros 3]⟩ = .ok := by decide
+
 /-- the executable validator decides the specification predicate (restated for the audit) -/
 theorem wellFormedB_correct (d : ArrayData) : wellFormedB d = true ↔ WellFormed d :=
   wellFormedB_iff d
